@@ -54,6 +54,8 @@ import (
 
 const vfC04Left = 5000 // the snapshot's offset
 
+var vfC04DbgLog = false
+
 type vfC04Reader struct {
 	r    *bufio.Reader
 	size int64
@@ -199,6 +201,7 @@ type vfC04Res struct {
 	NReq       int
 	Hang       string
 	Leak       bool
+	FailCmd    string // command of the request the fault was injected at
 }
 
 func vfC04DefaultOpts() vfC04Opts {
@@ -283,6 +286,14 @@ func vfC04Send(t *testing.T, kvs []vfc20.KV, data []byte, size int64, o vfC04Opt
 		tg.CloseAll()
 		log := tg.LogCopy()[nSeed:]
 		res.NReq = len(log)
+		if o.FailAt >= 0 && o.FailAt < len(log) {
+			res.FailCmd = log[o.FailAt].Cmd()
+		}
+		if vfC04DbgLog {
+			for i, e := range log {
+				fmt.Printf("VFDBG   #%d conn=%d db=%d %s\n", i, e.Conn, e.DB, e.String())
+			}
+		}
 		for _, e := range log {
 			if e.Cmd() == "hset" && len(e.Args) > 2 && string(e.Args[1]) == "vfcp" {
 				for _, a := range e.Args[2:] {
@@ -611,8 +622,13 @@ func TestVerifC04(t *testing.T) {
 						mark("fail " + of.String())
 						r := vfC04Send(t, f.KVs, data, int64(len(data)), of)
 						vfC04Monitor(s, "target-error", f.Name, data, of, r)
-						s.Op(vfC04FanOp(data, o, fmt.Sprintf("fail:%d", k)), vfC04ResTok(r))
-						s.Count("fan_fail")
+						if r.FailCmd == "exec" {
+							// the double executes EXEC regardless of FailAt: no fault was injected
+							s.Count("fan_fail_on_exec_not_injectable")
+						} else {
+							s.Op(vfC04FanOp(data, o, fmt.Sprintf("fail:%d", k)), vfC04ResTok(r))
+							s.Count("fan_fail")
+						}
 						// cancel at request k
 						oc := o
 						oc.CancelAt = k
